@@ -72,11 +72,20 @@ type World struct {
 }
 
 func applyHandle[S any](b failsafe.FailurePolicyBuilder[S, R], c Cond) {
-	for _, e := range c.Errors {
-		b.HandleErrors(errTable[e])
-	}
-	for _, t := range c.ErrTypes {
-		b.HandleErrorTypes(errTypeTargets[t])
+	if c.Variadic {
+		if len(c.Errors) > 0 {
+			b.HandleErrors(condErrors(c)...)
+		}
+		if len(c.ErrTypes) > 0 {
+			b.HandleErrorTypes(condErrTypes(c)...)
+		}
+	} else {
+		for _, e := range c.Errors {
+			b.HandleErrors(errTable[e])
+		}
+		for _, t := range c.ErrTypes {
+			b.HandleErrorTypes(errTypeTargets[t])
+		}
 	}
 	for _, r := range c.Results {
 		b.HandleResult(r)
@@ -84,6 +93,22 @@ func applyHandle[S any](b failsafe.FailurePolicyBuilder[S, R], c Cond) {
 	for _, p := range c.Preds {
 		b.HandleIf(predFn(p))
 	}
+}
+
+func condErrors(c Cond) []error {
+	var out []error
+	for _, e := range c.Errors {
+		out = append(out, errTable[e])
+	}
+	return out
+}
+
+func condErrTypes(c Cond) []any {
+	var out []any
+	for _, t := range c.ErrTypes {
+		out = append(out, errTypeTargets[t])
+	}
+	return out
 }
 
 //go:norace
@@ -173,11 +198,20 @@ func (w *World) build(sc *Scenario, log *Log) {
 		case KRetry:
 			b := retrypolicy.Builder[R]()
 			applyHandle[retrypolicy.RetryPolicyBuilder[R]](b, p.Handle)
-			for _, e := range p.Abort.Errors {
-				b.AbortOnErrors(errTable[e])
-			}
-			for _, t := range p.Abort.ErrTypes {
-				b.AbortOnErrorTypes(errTypeTargets[t])
+			if p.Abort.Variadic {
+				if len(p.Abort.Errors) > 0 {
+					b.AbortOnErrors(condErrors(p.Abort)...)
+				}
+				if len(p.Abort.ErrTypes) > 0 {
+					b.AbortOnErrorTypes(condErrTypes(p.Abort)...)
+				}
+			} else {
+				for _, e := range p.Abort.Errors {
+					b.AbortOnErrors(errTable[e])
+				}
+				for _, t := range p.Abort.ErrTypes {
+					b.AbortOnErrorTypes(errTypeTargets[t])
+				}
 			}
 			for _, r := range p.Abort.Results {
 				b.AbortOnResult(r)
